@@ -1,6 +1,7 @@
 package relay
 
 import (
+	"math/big"
 	"os"
 	"bytes"
 	"crypto/sha256"
@@ -176,7 +177,7 @@ func (s *Sys) deliverRecv(dst *world.Chain, signer world.Account, msgs []sdk.Msg
 
 // relayerBalances sums the fee-token balances of every account that may relay.
 func (s *Sys) relayerBalances(c *world.Chain, t *transfer) int64 {
-	n := s.units(s.tokenOf(t), s.feeBalance(c, t, c.Accounts["r1"])) + s.units(s.tokenOf(t), s.feeBalance(c, t, c.Accounts["r2"])) + s.units(s.tokenOf(t), s.feeBalance(c, t, c.Accounts["r3"]))
+	n := s.units(s.tokenOf(t), s.feeBalance(c, t, c.Accounts["r1"])) + s.units(s.tokenOf(t), s.feeBalance(c, t, c.Accounts["r2"])) + s.units(s.tokenOf(t), s.feeBalance(c, t, c.Accounts["r3"])) + s.units(s.tokenOf(t), s.feeBalance(c, t, c.Accounts["r4"]))
 	if s.cfg.TSS {
 		n += s.units(s.tokenOf(t), s.feeBalance(c, t, c.Accounts["u2"]))
 	}
@@ -231,7 +232,9 @@ func (s *Sys) deliverAck(src *world.Chain, signer world.Account, msgs []sdk.Msg,
 	ck := string(host.PacketCommitmentKey(p.SrcChain, p.DstChain, p.Sequence))
 	var relayerBalPre, senderPre int64
 	var statusPre uint8
+	var x1Pre *big.Int
 	if t != nil && p.SrcChain == src.Name {
+		x1Pre = s.holdings(src, s.tokenOf(t), src.Accounts["x1"])
 		relayerBalPre = s.relayerBalances(src, t)
 		statusPre = src.AckStatus(p.DstChain, p.Sequence)
 		senderPre = s.senderHoldings(src, t)
@@ -316,6 +319,10 @@ func (s *Sys) deliverAck(src *world.Chain, signer world.Account, msgs []sdk.Msg,
 		}
 		if statusPre != 0 || statusPost != wantStatus {
 			add("C05", "ack-status-not-recorded-once", fmt.Sprintf("ack %s code %d: ackStatus %d -> %d, want 0 -> %d", what, a.Code, statusPre, statusPost, wantStatus))
+		}
+		if x1Post := s.holdings(src, s.tokenOf(t), src.Accounts["x1"]); x1Pre != nil && x1Post.Cmp(x1Pre) != 0 {
+			add("C06", "fee-paid-to-a-relayer-registered-for-another-chain-only", fmt.Sprintf("ack %s on %s: account x1 (registered as relayer for chain elsewhere-1 only) holds %s after, %s before", what, short[src.Name], x1Post, x1Pre))
+			add("C05", "fee-paid-to-a-relayer-registered-for-another-chain-only", fmt.Sprintf("ack %s on %s: account x1 (registered as relayer for chain elsewhere-1 only) holds %s after, %s before", what, short[src.Name], x1Post, x1Pre))
 		}
 		relayerBalPost := s.relayerBalances(src, t)
 		if relayerBalPost-relayerBalPre != t.Fee {
